@@ -29,6 +29,7 @@ import (
 	clientsetfake "k8s.io/client-go/kubernetes/fake"
 
 	"github.com/koordinator-sh/koordinator/apis/extension"
+	pgv1alpha1 "github.com/koordinator-sh/koordinator/apis/thirdparty/scheduler-plugins/pkg/apis/scheduling/v1alpha1"
 	fakepgclientset "github.com/koordinator-sh/koordinator/apis/thirdparty/scheduler-plugins/pkg/generated/clientset/versioned/fake"
 	pgformers "github.com/koordinator-sh/koordinator/apis/thirdparty/scheduler-plugins/pkg/generated/informers/externalversions"
 	koordfake "github.com/koordinator-sh/koordinator/pkg/client/clientset/versioned/fake"
@@ -62,7 +63,8 @@ func c04NewManager() *PodGroupManager { // as NewManagerForTest of the package's
 }
 
 var c04Pods = []string{"p1", "p2", "p3", "p4", "p5", "p6", "p7", "p8"}
-var c04Gangs = []string{"g1", "g2", "g3"}
+// the id of the third gang is a prefix of the first one's ("ns/g1" / "ns/g11"): ids must be compared, not searched for
+var c04Gangs = []string{"g11", "g2", "g1"}
 
 type c04GangCfg struct {
 	Min    int      `json:"min"`
@@ -78,6 +80,9 @@ type c04Op struct {
 	Auto   bool                  `json:"auto,omitempty"`
 	GangOf map[string]string     `json:"gangOf,omitempty"`
 	Cfg    map[string]c04GangCfg `json:"cfg,omitempty"`
+	Crd    bool                  `json:"crd,omitempty"`  // reset: gangs are declared by PodGroup objects (pods carry the pod-group label)
+	Gang   string                `json:"gang,omitempty"` // pgSet
+	Cfg1   *c04GangCfg           `json:"cfg1,omitempty"` // pgSet: the gang's new settings
 }
 
 // ---- the framework's waiting-pod table, recording Allow / Reject ----
@@ -122,6 +127,8 @@ type c04World struct {
 	rejected map[string]bool
 	rec      *vu.Recorder
 	glue     *VerifC04Glue
+	crd      bool
+	pgs      map[string]*pgv1alpha1.PodGroup // last PodGroup object delivered per gang
 }
 
 func c04Policy(p string) string {
@@ -146,6 +153,13 @@ func (w *c04World) podObj(id string, bound bool) *corev1.Pod {
 	if c.Strict {
 		mode = extension.GangModeStrict
 	}
+	if w.crd {
+		p := &corev1.Pod{ObjectMeta: metav1.ObjectMeta{Name: id, Namespace: "ns", UID: types.UID(id), Labels: map[string]string{pgv1alpha1.PodGroupLabel: g}}}
+		if bound {
+			p.Spec.NodeName = "n1"
+		}
+		return p
+	}
 	p := &corev1.Pod{ObjectMeta: metav1.ObjectMeta{Name: id, Namespace: "ns", UID: types.UID(id), Annotations: map[string]string{
 		extension.AnnotationGangName:        g,
 		extension.AnnotationGangMinNum:      fmt.Sprint(c.Min),
@@ -157,6 +171,26 @@ func (w *c04World) podObj(id string, bound bool) *corev1.Pod {
 		p.Spec.NodeName = "n1"
 	}
 	return p
+}
+
+func c04PodGroup(g string, c c04GangCfg) *pgv1alpha1.PodGroup {
+	groups := []string{}
+	for _, x := range c.Group {
+		groups = append(groups, "ns/"+x)
+	}
+	gb, _ := json.Marshal(groups)
+	mode := extension.GangModeNonStrict
+	if c.Strict {
+		mode = extension.GangModeStrict
+	}
+	return &pgv1alpha1.PodGroup{
+		ObjectMeta: metav1.ObjectMeta{Name: g, Namespace: "ns", Annotations: map[string]string{
+			extension.AnnotationGangMode:        mode,
+			extension.AnnotationGangMatchPolicy: c04Policy(c.Policy),
+			extension.AnnotationGangGroups:      string(gb),
+		}},
+		Spec: pgv1alpha1.PodGroupSpec{MinMember: int32(c.Min)},
+	}
 }
 
 func c04Sorted(m map[string]bool) []string {
@@ -266,6 +300,13 @@ func (w *c04World) exec(o c04Op) []string {
 			w.mgr.AfterPostFilter(ctx, framework.NewCycleState(), obj, w.handle, "Coscheduling", framework.NewDefaultNodeToStatus(), nil)
 		}
 		ev["rejected"] = c04Sorted(w.rejected)
+	case "pgSet":
+		npg := c04PodGroup(o.Gang, *o.Cfg1)
+		w.mgr.cache.onPodGroupUpdate(w.pgs[o.Gang], npg)
+		w.pgs[o.Gang] = npg
+		w.cfg[o.Gang] = *o.Cfg1
+		delete(ev, "pod")
+		ev["gang"], ev["cfg"], ev["cfg1"] = o.Gang, *o.Cfg1, *o.Cfg1
 	case "postBind":
 		obj := w.objs[o.Pod]
 		if obj == nil {
@@ -302,14 +343,29 @@ func (w *c04World) rollback(rej []string) {
 	}
 }
 
-func c04NewWorld(rec *vu.Recorder, gangOf map[string]string, cfg map[string]c04GangCfg) *c04World {
-	w := &c04World{mgr: c04NewManager(), gangOf: gangOf, cfg: cfg, objs: map[string]*corev1.Pod{}, fw: map[string]*corev1.Pod{},
+func c04NewWorld(rec *vu.Recorder, gangOf map[string]string, cfg0 map[string]c04GangCfg, crd bool) *c04World {
+	cfg := map[string]c04GangCfg{} // own copy: pgSet changes it
+	for g, c := range cfg0 {
+		cfg[g] = c
+	}
+	w := &c04World{mgr: c04NewManager(), gangOf: gangOf, cfg: cfg, crd: crd, pgs: map[string]*pgv1alpha1.PodGroup{}, objs: map[string]*corev1.Pod{}, fw: map[string]*corev1.Pod{},
 		assumed: map[string]bool{}, bound: map[string]bool{}, rec: rec}
 	w.handle = &c04Handle{w: w}
 	if c04Factory != nil {
 		w.glue = c04Factory(w.mgr, w.handle)
 	}
-	rec.Reset(vu.Ev{"gangOf": gangOf, "cfg": cfg})
+	rec.Reset(vu.Ev{"gangOf": gangOf, "cfg": cfg0, "crd": crd})
+	if crd { // the PodGroup objects exist before the pods
+		names := make([]string, 0, len(cfg))
+		for g := range cfg {
+			names = append(names, g)
+		}
+		sort.Strings(names)
+		for _, g := range names {
+			w.pgs[g] = c04PodGroup(g, cfg[g])
+			w.mgr.cache.onPodGroupAdd(w.pgs[g])
+		}
+	}
 	return w
 }
 
@@ -319,16 +375,17 @@ func c04RandomCfg(rng *rand.Rand) (map[string]string, map[string]c04GangCfg) {
 	cfg := map[string]c04GangCfg{}
 	policy := []string{"once", "waiting", "waitrun"}[rng.Intn(3)]
 	strict := rng.Intn(2) == 0
-	split := ng == 3 && rng.Intn(3) == 0 // g3 on its own
+	split := ng == 3 && rng.Intn(2) == 0 // the third gang on its own
+	alone := ng >= 2 && rng.Intn(6) == 0  // every gang on its own
 	for i, g := range c04Gangs {
 		grp := []string{g}
-		if i < ng {
+		if i < ng && !alone {
 			grp = append([]string{}, groupAll...)
 			if split {
-				if g == "g3" {
-					grp = []string{"g3"}
+				if i == 2 {
+					grp = []string{g}
 				} else {
-					grp = []string{"g1", "g2"}
+					grp = append([]string{}, c04Gangs[:2]...)
 				}
 			}
 		}
@@ -348,10 +405,43 @@ func c04RandomCfg(rng *rand.Rand) (map[string]string, map[string]c04GangCfg) {
 // online random driver: picks the next op from what the (simulated) scheduler and API server could do now
 func c04RandomRun(rec *vu.Recorder, rng *rand.Rand, steps int) {
 	gangOf, cfg := c04RandomCfg(rng)
-	w := c04NewWorld(rec, gangOf, cfg)
+	crd := rng.Intn(3) == 0
+	w := c04NewWorld(rec, gangOf, cfg, crd)
+	hasOnce := false
+	for _, c := range cfg {
+		hasOnce = hasOnce || c.Policy == "once"
+	}
 	inflight := map[string]bool{}  // deleted while the scheduler still owns them (parked or in the binding goroutine)
 	informed := map[string]bool{}  // the informer has delivered an object carrying a node name: no later object can lack it
 	for i := 0; i < steps; i++ {
+		if crd && rng.Intn(14) == 0 {
+			// the PodGroup object of one gang is updated: min member, mode, match policy or gang group
+			g := c04Gangs[rng.Intn(len(c04Gangs))]
+			c := w.cfg[g]
+			c.Group = append([]string{}, c.Group...)
+			switch rng.Intn(4) {
+			case 0:
+				c.Min = 1 + rng.Intn(3)
+			case 1:
+				c.Strict = !c.Strict
+			case 2:
+				if !hasOnce { // the once-satisfied mark belongs to a gang GROUP: settings that re-define it are left alone
+					c.Policy = []string{"waiting", "waitrun"}[rng.Intn(2)]
+				}
+			default:
+				if !hasOnce {
+					c.Group = []string{g}
+					for _, x := range c04Gangs {
+						if x != g && rng.Intn(2) == 0 {
+							c.Group = append(c.Group, x)
+						}
+					}
+					sort.Strings(c.Group)
+				}
+			}
+			w.exec(c04Op{Op: "pgSet", Gang: g, Cfg1: &c})
+			continue
+		}
 		p := c04Pods[rng.Intn(len(c04Pods))]
 		_, known := w.objs[p]
 		var rej []string
@@ -427,7 +517,7 @@ func c04RandomRun(rec *vu.Recorder, rng *rand.Rand, steps int) {
 }
 
 func c04Replay(rec *vu.Recorder, script []c04Op) {
-	w := c04NewWorld(rec, script[0].GangOf, script[0].Cfg)
+	w := c04NewWorld(rec, script[0].GangOf, script[0].Cfg, script[0].Crd)
 	owned := map[string]bool{}   // deleted by the informer while the scheduler still owns them
 	through := map[string]bool{} // let through Permit, binding under way
 	for _, o := range script[1:] {
@@ -438,6 +528,10 @@ func c04Replay(rec *vu.Recorder, script []c04Op) {
 		// TLC-generated schedules follow the MODEL's permit verdicts, the real code decides the real ones
 		_, known := w.objs[o.Pod]
 		switch o.Op {
+		case "pgSet":
+			if !w.crd || o.Cfg1 == nil {
+				continue
+			}
 		case "permit", "fail":
 			if !known || w.assumed[o.Pod] || w.bound[o.Pod] {
 				continue
